@@ -245,6 +245,44 @@ func runC12(r *Run) {
 		} else {
 			r.Bad("R15", "anchor/migrateUCDAObalance", "", "not found")
 		}
+		r.Rule("R16", "PATH.genesis-ledger-is-backed: the DAO's InitGenesis creates/fetches the module account (GetModuleAccount — so that nothing else can put a plain account at that address before the first deposit) and compares the module account's bank coins (GetAllBalances) with the total it computed from the imported shares, panicking on the mismatch edge: a well-formed ucdao section whose shares have no coins behind them otherwise starts a chain on which the ledger equation is false at height 1 with no message delivered")
+		if ig, ok := r.P.FnOK("(x/ucdao/keeper.BaseKeeper).InitGenesis"); ok {
+			var getAcc, getBal ssa.Instruction
+			eachCall(ig, func(ci CallInfo) {
+				switch ci.Name {
+				case "GetModuleAccount":
+					getAcc = ci.Instr
+				case "GetAllBalances":
+					getBal = ci.Instr
+				}
+			})
+			r.Check(getAcc != nil, "R16", fnID(ig)+"#module-account-ensured", r.P.Pos(fnPos(ig)), "InitGenesis calls GetModuleAccount (which creates the account when missing)",
+				"the DAO's InitGenesis never creates its module account: until the first deposit the address is free, and a zero-value SELFDESTRUCT naming it as beneficiary stores a plain EthAccount there, after which every MsgFund panics with 'account is not a module account'")
+			compared := false
+			if getBal != nil {
+				for _, b := range ig.Blocks {
+					ifi, isIf := lastIf(b)
+					if !isIf {
+						continue
+					}
+					sl := backSlice(ifi.Cond)
+					if !sl.Has(getBal.(ssa.Value)) {
+						continue
+					}
+					// the other side is the total computed from the imported shares
+					fromShares := sl.HasCall(func(g CallInfo) bool { return g.Name == "Add" && namedName(g.Instr.Common().Signature().Results().At(0).Type()) == "Coins" }) || sl.HasField("Balance", "Coins")
+					for _, succ := range b.Succs {
+						if blockAlwaysPanics(succ) && fromShares {
+							compared = true
+						}
+					}
+				}
+			}
+			r.Check(compared, "R16", fnID(ig)+"#pool-equals-computed-total", r.P.Pos(fnPos(ig)), "a branch on GetAllBalances(module account) vs. the computed total leads to panic",
+				"the DAO's InitGenesis does not compare the module account's coins with the total of the imported shares (no branch whose condition depends on GetAllBalances and on the summed balances leads to a panic): genesis {holder: 100 ISLM, total 100 ISLM} with nothing at the module address in the bank section passes ValidateGenesis and InitChain — shares and total say 100 ISLM, the module account holds nothing")
+		} else {
+			r.Bad("R16", "anchor/ucdao.InitGenesis", "", "not found")
+		}
 		r.Rule("R10", "SHAPE.index-decided-by-balances-only: setHoldersIndex lists an address exactly when its DAO balances are not all zero — every branch condition in it is built from GetAccountBalances(addr).IsZero() and holdersStore.Has(key) alone; a condition that consults anything else (the bank keeper's blocked addresses, account types) makes the index differ from the set of non-zero accounts")
 		if sh, ok := r.P.FnOK("(x/ucdao/keeper.BaseKeeper).setHoldersIndex"); ok {
 			allowed := map[string]bool{"GetAccountBalances": true, "IsZero": true, "Has": true, "MustLengthPrefix": true, "getHoldersStore": true, "KVStore": true, "NewStore": true}
@@ -892,4 +930,35 @@ func checkBlockedAddrs(r *Run, rule, module string) {
 		"a loop of BlockedAddrs can move on to the next account without having collected or blocked the current one: some module accounts (those the filter skips) can receive plain transfers, so their balance no longer matches the module's own records")
 	r.Check(rangesMacc && insertsTrue >= 2 && removes == "" && okAddr, rule, fnID(ba)+"#blocks-every-module-account", P.Pos(fnPos(ba)), "every maccPerms account is blocked, nothing removed",
 		fmt.Sprintf("BlockedAddrs does not block every module account unconditionally (ranges maccPerms: %v, true-insertions: %d, removal: %q): a module account that can receive plain bank transfers gets coins its own ledger does not know about", rangesMacc, insertsTrue, removes))
+}
+
+// blockAlwaysPanics: every path from b ends in a panic before any return (bounded walk over the successors).
+func blockAlwaysPanics(b *ssa.BasicBlock) bool {
+	seen := map[*ssa.BasicBlock]bool{}
+	var walk func(*ssa.BasicBlock) bool
+	walk = func(x *ssa.BasicBlock) bool {
+		if seen[x] {
+			return true
+		}
+		seen[x] = true
+		if len(x.Instrs) == 0 {
+			return false
+		}
+		switch x.Instrs[len(x.Instrs)-1].(type) {
+		case *ssa.Panic:
+			return true
+		case *ssa.Return:
+			return false
+		}
+		if len(x.Succs) == 0 {
+			return false
+		}
+		for _, s := range x.Succs {
+			if !walk(s) {
+				return false
+			}
+		}
+		return true
+	}
+	return walk(b)
 }
